@@ -24,6 +24,13 @@ pub fn gen_ev(r: &mut Rng, thorough: bool, cx: &mut Ctx) {
             for v in vals { let mut e = gen_event(r, kind, 8); if kind == 4 && i == 2 { continue; } e[1 + i] = v; cx.emit(&e); }
         }
     }
+    // data events whose declared length differs from the payload they hold (the encoder writes the declared length, then ALL payload bytes)
+    for n in [0usize, 1, 2, 5, 8, 20, 300].iter() {
+        for d in [0u64, 1, (*n as u64).wrapping_sub(1) & 0xffff, *n as u64 + 1, *n as u64 + 7, (*n as u64) / 2, 255, 256, 65535].iter() {
+            if *d == *n as u64 { continue; }
+            let mut v = vec![4, r.u16b(), r.u16b(), *d]; v.extend(r.bytes(*n).iter().map(|b| *b as u64)); cx.emit(&v);
+        }
+    }
     // data events at the size limits
     let big: &[usize] = if thorough { &[65535, 65534, 65535, 32768, 28672, 28666] } else { &[65535, 28666] };
     for n in big { let mut v = vec![4, r.u16b(), r.u16b(), *n as u64]; v.extend(r.bytes(*n).iter().map(|b| *b as u64)); cx.emit(&v); }
